@@ -84,6 +84,7 @@ pub fn strategy(g: TxGen) -> BoxedStrategy<SpCase> {
             // bidirectional traffic (both classes): payload — any size the link carries, so also above the socket's
             // current segment size —, cumulative acknowledgement and a window update on one packet
             choices.push((2, (prop_oneof![2 => 1u16..600, 3 => 600u16..1500, 1 => 1500u16..9000], wnd.clone()).prop_map(|(len, wnd)| Step::Peer(PeerOp::DataAckWnd { len, wnd })).boxed()));
+            choices.push((1, wnd.clone().prop_map(|wnd| Step::Peer(PeerOp::DupDataWnd { wnd })).boxed()));
             if g.class == AckClass::Full {
                 choices.push((3, (1u8..7).prop_map(|n| Step::Peer(PeerOp::DupAck(n))).boxed()));
                 choices.push((4, (0i16..6, wnd.clone(), sack_bytes()).prop_map(|(back, wnd, s)| Step::Peer(PeerOp::Ack { back, wnd, sack: Some(s) })).boxed()));
